@@ -149,8 +149,16 @@ where
 impl<'a, T, L: MutLayout> SplitIterator for AxisChunks<'a, T, L> {
     fn split_at(mut self, index: usize) -> (Self, Self) {
         let (left_remainder, right_remainder) = if let Some(remainder) = self.remainder.take() {
-            let (l, r) = remainder.split_at(self.axis, self.chunk_size * index);
-            (Some(l), Some(r))
+            // The last chunk may be shorter than `chunk_size`.
+            let mid = (self.chunk_size * index).min(remainder.size(self.axis));
+            let (l, r) = remainder.split_at(self.axis, mid);
+
+            // An exhausted iterator has no remainder.
+            let axis = self.axis;
+            (
+                Some(l).filter(|l| l.size(axis) > 0),
+                Some(r).filter(|r| r.size(axis) > 0),
+            )
         } else {
             (None, None)
         };
@@ -177,8 +185,16 @@ impl<'a, T, L: MutLayout + Send> IntoParallelIterator for AxisChunks<'a, T, L> {
 impl<'a, T, L: MutLayout> SplitIterator for AxisChunksMut<'a, T, L> {
     fn split_at(mut self, index: usize) -> (Self, Self) {
         let (left_remainder, right_remainder) = if let Some(remainder) = self.remainder.take() {
-            let (l, r) = remainder.split_at_mut(self.axis, self.chunk_size * index);
-            (Some(l), Some(r))
+            // The last chunk may be shorter than `chunk_size`.
+            let mid = (self.chunk_size * index).min(remainder.size(self.axis));
+            let (l, r) = remainder.split_at_mut(self.axis, mid);
+
+            // An exhausted iterator has no remainder.
+            let axis = self.axis;
+            (
+                Some(l).filter(|l| l.size(axis) > 0),
+                Some(r).filter(|r| r.size(axis) > 0),
+            )
         } else {
             (None, None)
         };
